@@ -68,6 +68,19 @@ FIELD = re.compile(r"off=(\d+) size=(\d+) jt=(\d) in=\[([^\]]*)\] out=\[([^\]]*)
 
 
 def oracle(case, reply):
+    why = oracle_as(case, reply)
+    if why is None:
+        hx = case["line"].split(" ")[2]
+        code = bytes.fromhex(hx) if hx != "-" else b""
+        if R.uses_cancun_extra(code):
+            with R.real_cancun():
+                why2 = oracle_as(case, reply)
+            if why2:
+                return R.D27 + why2
+    return why
+
+
+def oracle_as(case, reply):
     _, off, hx = case["line"].split(" ")
     off = int(off)
     code = bytes.fromhex(hx) if hx != "-" else b""
@@ -168,7 +181,9 @@ MANIFEST = {
             "condition and fall-through offset are the evaluation of the annotated outputs and exit; declared inputs are "
             "exactly the deepest slot touched; offset/size/jump-target describe the block; all trees are well formed and "
             "Expr::walk over the flat encoding visits exactly the tree. Simulation invariant over all opcodes, all block "
-            "lengths, all 256-bit stacks.",
+            "lengths, all 256-bit stacks. SCOPE: the reference semantics follows the opcode set of etk's own Cancun table; for the REAL "
+            "Cancun EVM the theorems hold for blocks without BLOBHASH / BLOBBASEFEE / TLOAD / TSTORE (C06_sound_cancun) and fail otherwise "
+            "(C06_cancun_counterexample: push1 0; tload is annotated as terminating, the machine falls through; known finding D27).",
     "note": "Trusted: Lean kernel; Annot/Model.lean (annotate_one transcribed per opcode, StackWindow ledger) tied structurally "
             "(inputs, flat output expressions, exit, offset, size, jump_target compared as text for every opcode in every block "
             "position) to etk-dasm through the public API; Evm/Sem.lean + Evm/Ops.lean are my transcription of the Yellow "
